@@ -314,6 +314,8 @@ fn check_expression(ctx: &Ctx, t: &T) {
 fn check_repeated_subexpression(ctx: &Ctx) {
     let es = [
         "[0/0]", "{x: inf - inf}", "[[0/0], 1]", "{a: [0/0]}", "[1, 2]", "{a: 1}", "\"s\"", "[null]", "[1, null]", "[{a: 1}, 2]", "0/0", "[]", "{}", "x => x", "[x => x]",
+        // closures whose captured values are created afresh by every evaluation of E
+        "((k) => (x) => x + k)(\"s\")", "((k) => (x) => [x, k])([1])", "((n) => do {\n  items = [n, n + 1]\n  return (i) => items[i]\n})(1)", "((k) => (x) => k)({a: 1})", "((k) => (x) => k(x))(y => y)", "((k) => (x) => x + k)(2)",
     ];
     let contexts = [
         "H .== H", "H .!= H", "H == H", "H != H", "[H] == [H]", "[H, 1] != [H, 1]", "{k: H} .== {k: H}", "[H, H] .== [H, H]", "H .< H", "H .<= H", "H .> H", "H .>= H", "H < H", "H <= H",
